@@ -26,12 +26,13 @@ Lemma rf_freq_bridge : forall u, Gen.Sampler.gen_rf_freq u = rf_freq u.
 Proof. reflexivity. Qed.
 Lemma rf_shift_bridge : forall u, Gen.Sampler.gen_rf_shift u = rf_shift u.
 Proof. reflexivity. Qed.
-(* fullsum * amplitude / num_terms, componentwise, is the model's scaling by amplitude / num_terms *)
-Lemma rf_scale_bridge : forall z amplitude num_terms,
-  ceq (Gen.Sampler.gen_rf_scale (fst z) amplitude num_terms, Gen.Sampler.gen_rf_scale (snd z) amplitude num_terms)
-      (cscale (amplitude / num_terms) z).
+(* fullsum * amplitude / (num_terms * input_dim), componentwise, is the model's scaling *)
+Lemma rf_scale_bridge : forall z amplitude num_terms input_dim,
+  ceq (Gen.Sampler.gen_rf_scale (fst z) amplitude num_terms input_dim,
+       Gen.Sampler.gen_rf_scale (snd z) amplitude num_terms input_dim)
+      (cscale (amplitude / (num_terms * input_dim)) z).
 Proof.
-  intros [x y] a n. unfold Gen.Sampler.gen_rf_scale, cscale, ceq. simpl. split; unfold Qdiv; ring.
+  intros [x y] a n k. unfold Gen.Sampler.gen_rf_scale, cscale, ceq. simpl. split; unfold Qdiv; ring.
 Qed.
 
 Lemma sqm_init_bridge : forall sym traceless det cplx dim,
